@@ -29,7 +29,8 @@ def _opaque(obj):
 
 class Dump(object):
 
-    def __init__(self, opaque_ids=None, taxa_by_label=False, limit=200000):
+    def __init__(self, opaque_ids=None, taxa_by_label=False, limit=200000, skip=None):
+        self.skip = SKIP if skip is None else skip
         self.num = {}
         self.nodes = []
         self.ids = set()       # identities of the mutable objects visited
@@ -85,7 +86,7 @@ class Dump(object):
         elif cn in ("OrderedSet", "AnnotationSet") or (hasattr(obj, "_item_list") and hasattr(obj, "_item_set")):
             body = [["items", [self._v(x, depth + 1) for x in obj._item_list]]]
             for a in sorted(obj.__dict__):
-                if a in ("_item_list", "_item_set") or a in SKIP:
+                if a in ("_item_list", "_item_set") or a in self.skip:
                     continue
                 body.append([a, self._v(obj.__dict__[a], depth + 1)])
         else:
@@ -93,7 +94,7 @@ class Dump(object):
             body = []
             if isinstance(d, dict):
                 for a in sorted(d):
-                    if a in SKIP:
+                    if a in self.skip:
                         continue
                     if a == "_annotations" and d[a] is not None and len(d[a]) == 0:
                         continue    # created lazily on first access: an empty set is the same as none
@@ -113,6 +114,23 @@ def _set_key(x):
     if isinstance(x, PRIMS):
         return (0, repr(x))
     return (1, type(x).__name__, str(getattr(x, "label", "")), str(getattr(x, "_label", "")))
+
+
+# for the question "which mutable objects can be reached", the lazily filled lookup tables count: an edge handed out by
+# tree.split_bitmask_edge_map is as reachable as one found by walking the tree
+SKIP_REACH = set(["_lower_cased_label", "_taxon_bitmask_map", "_dsim_addr"])
+
+
+def reachable_ids(root):
+    import sys
+    d = Dump(skip=SKIP_REACH)
+    old = sys.getrecursionlimit()
+    sys.setrecursionlimit(max(old, 20000))
+    try:
+        d.crawl(root)
+    finally:
+        sys.setrecursionlimit(old)
+    return d.ids
 
 
 def dump(root, opaque_ids=None, taxa_by_label=False):
